@@ -384,6 +384,12 @@ def run_memapi(case):
             elif kind == 'props':
                 (mem.last_run_op_count, mem.last_run_paused_seconds, mem.allocated_bytes, mem.storage_mode,
                  mem.speculation_stats)
+                for attr in ('last_run_last_ops',):
+                    if hasattr(mem, attr):
+                        v1 = list(getattr(mem, attr))
+                        v2 = list(getattr(mem, attr))
+                        if v1 != v2:
+                            return outcomes, ops_total, {'clause': 'api-result', 'expected': v1, 'observed': v2}
                 outcomes.append('props')
             elif kind == 'reinit':
                 mem.__init__(op[1], flat_max_words=op[2])
